@@ -53,6 +53,16 @@ def gen_case(rng, tier):
         off = rng.choice([-1, -4, 0, 2])
         e = ('bin', '-', ('num', 4), ('num', 4 - off)) if off < 0 else ('num', off)
         stmts.insert(rng.randint(0, len(stmts)), {'k': 'org', 'e': e, 'zone': zn})
+    if rng.random() < 0.15:
+        # a zone created in the source with a bound exactly at / one past an edge of GLOBAL (whatever GLOBAL is here)
+        g = [z for z in cfg['preZones'] if z[0] == 'GLOBAL']
+        g0, g1 = (g[0][1], g[0][2]) if g else (0, (1 << cfg['bits']) - 1)
+        zs, ze = rng.choice([(g1 - 3, g1 + 1), (g1 + 1, g1 + 1), (g1, g1), (g1 - 3, g1), (g0, g0), (g0 - 1, g0 + 2), (g0, g1),
+                             (g1 - 3, g1 + 1), (g1 + 1, g1 + 1)])
+        if zs >= 0:
+            at = rng.randint(0, len(stmts))
+            stmts[at:at] = [{'k': 'createZone', 'name': 'EDGEZ', 's': zs, 'e': ze}] + \
+                rng.choice([[], [{'k': 'memzone', 'z': 'EDGEZ'}, {'k': 'data', 'w': 1, 'vals': [('num', 0xE1)]}]])
     if rng.random() < 0.25:
         stmts = P.add_dead_blocks(rng, cfg, stmts, n=rng.randint(1, 2))
     gs = min([z[1] for z in cfg['preZones'] if z[0] == 'GLOBAL'] or [0])
